@@ -43,6 +43,7 @@ THEOREMS = [
     # Vectorize
     "Lena.C09.vec_compute_spec", "Lena.C09.vec_sum_compute_spec", "Lena.C09.zipLongest_row",
     "Lena.C09.vec_reset_fresh", "Lena.C09.vec_sum_reset_fresh", "Lena.C09.vec_mean_reset_fresh",
+    "Lena.C09.mapData_fillAll", "Lena.C09.vec_seq_sum_reset_fresh", "Lena.C09.vec_seq_sum_compute_spec",
     # Histogram
     "Lena.C09.binIndex_spec", "Lena.C09.hist_compute_spec", "Lena.C09.hist_conservation",
     "Lena.C09.hist_reset_is_init", "Lena.C09.hist_reset_fresh",
@@ -71,8 +72,8 @@ ASSUMPTIONS = [
     "for one-dimensional histograms; two-dimensional histograms are checked by the direct oracle only",
     "Decimal(float) is the exact decimal expansion of the float (Dec.ofDy); Emax/Emin of the decimal context are not reached",
 ]
-RULE = ("per element configuration (41 of them: Count, Sum, DSum, Mean[None|Sum()|DSum()], VarianceMeanCount, Vectorize[Sum|"
-        "Count|Mean|VarianceMeanCount|StoreFilled, dim 1..3, list form, short and long data vectors], StoreFilled, GroupBy["
+RULE = ("per element configuration (47 of them: Count, Sum, DSum, Mean[None|Sum()|DSum()], VarianceMeanCount, Vectorize[Sum|"
+        "Count|Mean|VarianceMeanCount|StoreFilled, bare or wrapped in FillComputeSeq(lambda x: k*x, .), dim 1..3, list form, short and long data vectors], StoreFilled, GroupBy["
         "default|group_by|merge], Histogram[1-d, initial bins, make_bins, initial_value; 2-d by the oracle only], Graph[scale, "
         "sort]): EVERY history of up to 4 calls (thorough: up to 5 for the single-accumulator families) over {fill(v1), "
         "fill(v2), compute, reset}; construction argument checks of Histogram and Vectorize; a regression corpus; plus seeded "
@@ -148,10 +149,20 @@ def _build(spec, zero=False):
     if k == "groupby":
         return lena.flow.GroupBy(*[tuple(a) if isinstance(a, list) else a for a in spec["args"]])
     if k == "vec":
+        import lena.core
+        mul = spec.get("wrap")           # None: the bare element; k: FillComputeSeq(lambda x: k*x, element) (1: no lambda)
+
+        def comp():
+            el = _build(spec["inner"])
+            if mul is None:
+                return el
+            if mul == 1:
+                return lena.core.FillComputeSeq(el)
+            return lena.core.FillComputeSeq(lambda x: mul * x, el)
         if spec["list"]:
-            seqs = [_build(spec["inner"]) for _ in range(spec["nseq"])]
+            seqs = [comp() for _ in range(spec["nseq"])]
             return lena.math.Vectorize(seqs) if spec["dim"] is None else lena.math.Vectorize(seqs, spec["dim"])
-        inner = _build(spec["inner"])
+        inner = comp()
         return lena.math.Vectorize(inner) if spec["dim"] is None else lena.math.Vectorize(inner, spec["dim"])
     if k == "hist":
         edges = [[_num(x) for x in ax] for ax in spec["edges"]] if spec.get("md") else [_num(x) for x in spec["edges"]]
@@ -353,7 +364,8 @@ def model_requests(case):
         mi = {"k": "sum", "total0": _scaled(inner["total0"], sh)} if inner["k"] == "sum" else _m_spec(inner)
         if mi is None or (inner["k"] == "mean" and inner["seq"] == "dsum"):
             return []
-        el = {"k": "vec", "inner": mi, "list": spec["list"], "nseq": spec.get("nseq", 1), "dim": spec["dim"]}
+        el = {"k": "vec", "inner": mi, "list": spec["list"], "nseq": spec.get("nseq", 1), "dim": spec["dim"],
+              "mul": spec.get("wrap")}
         if spec["dim"] is not None and spec["dim"] < 0:
             return []
     elif k == "hist":
@@ -782,8 +794,9 @@ def _agg_fail(spec, e, fills, start, zero):
         dim = _vec_dim(spec)
         rows = []
         comps = []
-        for i in range(dim):
-            comps.append([{"d": v["d"][i], "c": None} for v in fills])
+        mul = spec.get("wrap") or 1
+        for i in range(dim):       # what component i is filled with: the (preprocessed) bare coordinate
+            comps.append([{"d": _mknum(_num(v["d"][i]) * mul), "c": None} for v in fills])
         # every component's own results, judged by the inner element's rule
         outs = []
         for y in e:
@@ -993,7 +1006,7 @@ def classify(case, res):
     spec = case["el"]
     k = spec["k"]
     if k == "vec":
-        k = "vec:" + spec["inner"]["k"]
+        k = "vec:" + spec["inner"]["k"] + (":FillComputeSeq" if spec.get("wrap") else "")
     if k == "mean":
         k = f"mean:{spec['seq']}"
     labels = [k]
@@ -1146,6 +1159,13 @@ def _specs_small():
     for inner in inners:
         out.append(({"k": "vec", "inner": inner, "list": False, "dim": 2}, 0, [v([1, 2], {"a": 1}), v([3, 5])]))
     out.append(({"k": "vec", "inner": inners[0], "list": False, "dim": 2}, 0, [v([1], {"a": 1}), v([3, 5, 7])]))
+    # components that are FillComputeSeq-s (Vectorize reaches the accumulators through _fill_compute)
+    out.append(({"k": "vec", "inner": inners[0], "list": False, "dim": 2, "wrap": 2}, 0, [v([1, 2], {"a": 1}), v([3, 5])]))
+    out.append(({"k": "vec", "inner": inners[0], "list": False, "dim": 3, "wrap": 1}, 0, [v([1, 2, 4], {"a": 1}), v([3, 5, 6])]))
+    out.append(({"k": "vec", "inner": inners[3], "list": False, "dim": 2, "wrap": 2}, 0, [v([1, 2], {"a": 1}), v([3, 5])]))
+    out.append(({"k": "vec", "inner": inners[1], "list": False, "dim": 2, "wrap": 1}, 0, [v([1, 2], {"a": 1}), v([3, 5])]))
+    out.append(({"k": "vec", "inner": inners[0], "list": True, "nseq": 2, "dim": None, "wrap": 2}, 0, [v([1, 2], {"a": 1}), v([3, 5])]))
+    out.append(({"k": "vec", "inner": inners[5], "list": True, "nseq": 2, "dim": None, "wrap": 1}, 0, [v([1, 2], {"a": 1}), v([3])]))
     out.append(({"k": "vec", "inner": inners[2], "list": True, "nseq": 2, "dim": None}, 0, [v([1, 2], {"a": 1}), v([3])]))
     return out
 
@@ -1167,6 +1187,10 @@ def _init_cases():
         for nseq in (0, 1, 3):
             cs.append({"el": {"k": "vec", "inner": sm, "list": True, "nseq": nseq, "dim": dim},
                        "ops": [["f", vv], ["c"]], "sh": 0})
+    for dim in (None, 1, 2):
+        cs.append({"el": {"k": "vec", "inner": sm, "list": False, "dim": dim, "wrap": 2}, "ops": [["f", vv], ["c"]], "sh": 0})
+        cs.append({"el": {"k": "vec", "inner": sm, "list": True, "nseq": 2, "dim": dim, "wrap": 1},
+                   "ops": [["f", vv], ["r"], ["c"]], "sh": 0})
     return cs
 
 
@@ -1273,6 +1297,8 @@ def _rand_case(rng, maxlen):
             spec = {"k": "vec", "inner": inner, "list": True, "nseq": rng.randint(1, 3), "dim": None}
         else:
             spec = {"k": "vec", "inner": inner, "list": False, "dim": rng.randint(1, 3)}
+        if rng.random() < 0.4:
+            spec["wrap"] = rng.choice([1, 2, 2, 4])
         dim = _vec_dim(spec)
 
         def mk():
